@@ -249,7 +249,7 @@ func (r *Report) Finish(fo finishOpts) int {
 	perRuleSample := map[string]int{}
 	for _, o := range r.Obls {
 		lim := 6
-		if o.status == FAIL {
+		if o.status == FAIL || o.status == ABSTAIN {
 			lim = 1000
 		}
 		if perRuleSample[o.Rule+o.Status] >= lim {
